@@ -135,6 +135,8 @@ pub struct FullType {
     pub interfaces: Option<Vec<FullTypeInterfaces>>,
     pub enum_values: Option<Vec<FullTypeEnumValues>>,
     pub possible_types: Option<Vec<FullTypePossibleTypes>>,
+    /// Present when the schema was introspected with `isOneOf` (`graphql-client introspect-schema --is-one-of`).
+    pub is_one_of: Option<bool>,
 }
 
 #[derive(Clone, Debug, Deserialize)]
